@@ -1,12 +1,103 @@
 (* C06 — call()/wait() resume the caller exactly once with the result, leaving no residue.
-   Only statements here; proofs live in Proofs/KTasksP.v. *)
+   Only statements here; proofs live in Proofs/KTasksP.v, the model in Model/KTasks.v.
+
+   Reading guide.  [run p gen scheds roots n] is the world after n iterations of tick() of the program p
+   (handlers per event name), with generate_events fired iff gen, the task set iterated in the order
+   given by scheds (any schedule: [order_by] only permutes), and the root events fired as listed.  Every
+   theorem is for ALL p, gen, scheds, roots, n.  [bad w = false] says the machinery itself has not raised
+   (removeHandler of an absent handler, a generator resumed against the protocol); [bad] is part of the
+   observable compared with the implementation on every generated case.
+   A wait state (one per executed call()/wait()) carries ghost fields, written only by the model's
+   transition functions: s_ph (Armed: waiting for the event; Seen: _on_event ran; Flagged: _on_done ran, the
+   wait generator is a task; Dead: resumed or timed out), s_resumes (number of times the suspended handler
+   was resumed through this wait, by send() of the result or by throw() of TimeoutError), s_ticks (number of
+   generate_events dispatches its tick handler counted), s_tmo0 (the timeout given), s_timedout.
+
+   NOT proved here (checked on every generated case by the oracle in harness/c06.py only): liveness (the
+   caller IS resumed when the callee finishes), and that the result is delivered only after the last
+   handler step of the callee.  The full "no residue at quiescence" statement is false for the code as it
+   is (C06_genraise_refuted, open finding C06-gen-raise). *)
 From Coq Require Import List ZArith Bool.
 From Circ Require Import Model.KTasks Proofs.KTasksP.
 Import ListNotations.
 Open Scope Z_scope.
 
+(* residue: the temporary handlers installed are exactly those the live wait states call for
+   (<name> while Armed; <name>_done until resumed/timed out; generate_events while Armed/Seen with a timeout),
+   each at most once *)
+Theorem C06_residue : forall p g scheds roots n, let w := run p g scheds roots n in bad w = false ->
+  NoDup (ths w) /\
+  forall h, In h (ths w) <-> exists st, nth_error (wsts w) (sid_of h) = Some st /\ wants h st.
+Proof. exact residue_spec. Qed.
+Print Assumptions C06_residue.
+
+(* ... so once every wait has been resumed or has timed out, no temporary handler and no wait generator task is left *)
+Theorem C06_no_residue : forall p g scheds roots n, let w := run p g scheds roots n in bad w = false ->
+  (forall sid st, nth_error (wsts w) sid = Some st -> s_ph st = Dead) ->
+  ths w = [] /\ forall t, In t (tasks w) -> forall sid, t_ref t <> RWait sid.
+Proof. exact no_residue_all_dead. Qed.
+Print Assumptions C06_no_residue.
+
+(* exactly-once accounting: at every moment a wait is exactly one of: live (handlers installed, caller suspended),
+   timed out with its TimeoutError pending as a task, or has resumed its caller exactly once *)
+Theorem C06_resume_accounting : forall p g scheds roots n sid st, let w := run p g scheds roots n in bad w = false ->
+  nth_error (wsts w) sid = Some st ->
+  (s_resumes st + alive (s_ph st) + count_rt sid (tasks w) = 1)%nat.
+Proof. exact resume_accounting. Qed.
+Print Assumptions C06_resume_accounting.
+
+(* the caller is resumed at most once per call/wait, result and TimeoutError together; after it nothing is pending *)
+Theorem C06_resume_at_most_once : forall p g scheds roots n sid st, let w := run p g scheds roots n in bad w = false ->
+  nth_error (wsts w) sid = Some st ->
+  (s_resumes st <= 1)%nat /\ (s_resumes st = 1%nat -> s_ph st = Dead /\ count_rt sid (tasks w) = O).
+Proof. exact resume_at_most_once. Qed.
+Print Assumptions C06_resume_at_most_once.
+
+(* a TimeoutError (fired, or still pending as a task) exists only after the wait has counted tmo0+1 generate_events
+   dispatches, i.e. not before tmo0 further loop iterations; until then the countdown is exact *)
+Theorem C06_timeout_not_early : forall p g scheds roots n sid st, let w := run p g scheds roots n in bad w = false ->
+  nth_error (wsts w) sid = Some st ->
+  (s_timedout st = true \/ (0 < count_rt sid (tasks w))%nat) ->
+  Z.of_nat (s_ticks st) = s_tmo0 st + 1 /\ s_ph st = Dead.
+Proof. exact timeout_not_early. Qed.
+Print Assumptions C06_timeout_not_early.
+
+Theorem C06_countdown : forall p g scheds roots n sid st, let w := run p g scheds roots n in bad w = false ->
+  nth_error (wsts w) sid = Some st -> s_timedout st = false -> 0 <= s_tmo0 st ->
+  0 <= s_timeout st /\ s_timeout st + Z.of_nat (s_ticks st) = s_tmo0 st.
+Proof. exact live_countdown. Qed.
+Print Assumptions C06_countdown.
+
+(* a wait generator is in the task set only between _on_done and its resumption; then only <name>_done is installed *)
+Theorem C06_wait_task : forall p g scheds roots n t sid, let w := run p g scheds roots n in bad w = false ->
+  In t (tasks w) -> t_ref t = RWait sid ->
+  exists st, nth_error (wsts w) sid = Some st /\ s_ph st = Flagged /\ In (THDone sid) (ths w) /\
+             ~ In (THEv sid) (ths w) /\ ~ In (THTick sid) (ths w).
+Proof. exact wait_task_flagged. Qed.
+Print Assumptions C06_wait_task.
+
+(* The full statement ("when the system is quiescent again no temporary handlers remain, the caller has been resumed")
+   is refuted for the code as it is: the callee's generator handler raises after its first yield; the world is quiescent
+   (no task, empty queue, nothing crashed), <name>_done is still installed and the caller was never resumed. *)
 Theorem C06_genraise_refuted :
-  let w := run prog_genraise false [O] [(O, O)] 12 in
-  tasks w = [] /\ queue w = [] /\ ths w = [THDone O] /\ bad w = false.
+  let w := run prog_genraise false [] [(O, O)] 12 in
+  tasks w = [] /\ queue w = [] /\ ths w = [THDone O] /\ bad w = false /\
+  exists st, nth_error (wsts w) O = Some st /\ s_resumes st = O.
 Proof. exact genraise_residue. Qed.
 Print Assumptions C06_genraise_refuted.
+
+(* non-vacuity: a call that returns (resumed once with the callee's two values) and a call that times out
+   (timeout 1: two generate_events dispatches counted, TimeoutError delivered once) *)
+Example C06_ex_ok :
+  let w := run prog_ok false [] [(O, O)] 12 in
+  bad w = false /\ ths w = [] /\ tasks w = [] /\
+  map (fun s => (s_ph s, s_resumes s, s_timedout s)) (wsts w) = [(Dead, 1%nat, false)] /\
+  In (LRes 1 0 0 [205; 209] false) (wlog w).
+Proof. vm_compute. repeat split. tauto. Qed.
+
+Example C06_ex_tmo :
+  let w := run prog_tmo true [] [(O, O)] 14 in
+  bad w = false /\ ths w = [] /\ tasks w = [] /\
+  map (fun s => (s_ph s, s_resumes s, s_timedout s, s_tmo0 s, s_ticks s)) (wsts w) = [(Dead, 1%nat, true, 1, 2%nat)] /\
+  In (LTmo 1 0 0) (wlog w).
+Proof. vm_compute. repeat split. tauto. Qed.
